@@ -13,6 +13,7 @@ RULE = ("subvalue / subgraph / normalize (functions and methods) on plain dicts,
         "compared after numeric substitution of the symbols at three points). Non-trivial = model with >= 2 terms and "
         "a non-empty assignment / node set; distinct = digest of (function, type, terms, arguments)"
         ' Also: values / connections given as defaultdict, Counter, OrderedDict, MappingProxyType, ChainMap, UserDict (and their immutability), sympy-number and narrow numpy (int8 / uint8 / float32) coefficients, plain-polynomial dicts with repeated labels, removal of the largest term with a dict mutator followed by the same normalisation, second call after result edits.')
+RULE += " Rounds 9-10: named variable objects edited in place, models in very small units (exact power-of-two scaling), second call on the same object after a term was swapped / changed / removed in place."
 TIERS = {"quick": {"shards": 8, "cases": 4000}, "thorough": {"shards": 16, "cases": 40000}}
 FLOOR_BASE = {"quick": 400, "thorough": 10000}    # case counts the floors below were calibrated for; the launcher scales them
 ALLT = ["dict", "DictArithmetic", "QUBO", "PUBO", "PCBO", "QUBOMatrix", "PUBOMatrix", "QUSO", "PUSO", "PCSO", "QUSOMatrix", "PUSOMatrix"]
